@@ -88,3 +88,19 @@ theorem fireLoop_partial_then_drain (comp : Int) (k : Nat) (s : Store) (hs : SIn
   rw [h3]
 
 end Rxn.Timers
+
+namespace Rxn.Wm
+theorem Ups.set_set_same (u : Ups) (id : String) (v : Int) : (u.set id v).set id v = u.set id v := by
+  induction u with
+  | nil => simp [Ups.set]
+  | cons p rest ih =>
+    obtain ⟨k, x⟩ := p
+    by_cases h : k = id
+    · simp [Ups.set, h]
+    · simp [Ups.set, h, ih]
+
+/-- reporting the same watermark of the same sender again leaves the map and the composite watermark as they are -/
+theorem Ups.report_idem (u : Ups) (sender : String) (wm : Int) :
+    (u.report sender wm).1.report sender wm = u.report sender wm := by
+  simp [Ups.report, Ups.set_set_same]
+end Rxn.Wm
